@@ -63,6 +63,11 @@ def tasks(tier, seed):
             for declared in ((True, False) if n <= 2 else (True,)):
                 ts.append(dict(kind='graph', types=list(types), declared=declared))
     ts.append(dict(kind='lookup'))
+    # purity of the sensor scale types (their formulas are C17's subject; that they leave the raw array alone is C13's)
+    from . import c17
+    for t in c17.tasks('quick', 0):
+        if t['kind'] in ('rtd', 'thermistor', 'strain', 'poly'):
+            ts.append(dict(kind='sensor-purity', inner=t))
     ts.append(dict(kind='daqmx'))
     ts.append(dict(kind='table'))
     for scope in ('channel', 'group', 'root'):
@@ -367,6 +372,15 @@ def _expected_scaled(task, enc):
 
 def run_task(task):
     kind = task['kind']
+    if kind == 'sensor-purity':
+        from . import c17
+        c17.PURITY_IS_AN_OBLIGATION = True
+        try:
+            st = c17.run_task(task['inner'])
+        finally:
+            c17.PURITY_IS_AN_OBLIGATION = False
+        st['violations'] = [v for v in st['violations'] if v.get('what') == 'scale-modifies-raw-data']
+        return st
     if kind == 'file':
         enc = s1.build(task['shape'])
         full, tcode = _expected_scaled(task, enc)
@@ -382,6 +396,8 @@ def run_task(task):
 
 def signature(c):
     t = c['task']
+    if t['kind'] == 'sensor-purity':
+        return 'C13/sensor-purity/%s/%s' % (c.get('what', ''), c.get('scale', t['inner']['kind']))
     if t['kind'] == 'file':
         return 'C13/file/%s/%s/%s/%s/%s' % (t['scope'], t['order'], t['stype'], t['mode'], c.get('what', ''))
     return 'C13/%s/%s/%s' % (t['kind'], '-'.join(t.get('types', [])), c.get('what', ''))
@@ -389,6 +405,8 @@ def signature(c):
 
 def replay(art):
     task = art['task']
+    if task['kind'] == 'sensor-purity':
+        return _replay_sensor_purity(art)
     if task['kind'] == 'file':
         enc = s1.build(task['shape'])
         full, tcode = _expected_scaled(task, enc)
@@ -461,4 +479,31 @@ def _replay_graph(art):
         return dict(sig=signature(dict(task=task, what='graph-value')), got=[float(v) for v in out], expected=exp, props={k: str(v) for k, v in props.items()})
     if not np.array_equal(x, keep):
         return dict(sig=signature(dict(task=task, what='raw-data-modified')), before=list(keep), after=list(x))
+    return None
+
+
+def _replay_sensor_purity(art):
+    """float64 raw array through the real scale: must be unchanged afterwards"""
+    import nptdms.scaling as sc
+    from . import c17
+    inner = art['task']['inner']
+    inp = {k: c17._f(v) for k, v in art['inputs'].items() if k != 'root'}
+    try:
+        if inner['kind'] == 'strain':
+            s = sc.StrainScaling(c17.BRIDGES[inner['bridge']], inp.get('nu', 0.3), inp.get('Rg', 350.0), inp.get('rl', 0.0), inp.get('V0', 0.0) if inner['v0'] else 0.0,
+                                 inp.get('G', 2.0), inp.get('gain', 1.0), inp.get('Vex', 2.5), RAW)
+        elif inner['kind'] == 'rtd':
+            s = sc.RtdScaling(inp.get('I', 1e-3), inp.get('r0', 100.0), inp.get('a', 3.9083e-3), inp.get('b', -5.775e-7), -4.183e-12, inp.get('rl', 0.0), inner['cfg'], RAW)
+        elif inner['kind'] == 'thermistor':
+            s = sc.ThermistorScaling(sc.CURRENT_EXCITATION if inner['exc'] == 'current' else sc.VOLTAGE_EXCITATION, inp.get('ex', 1e-4), inner['cfg'],
+                                     inp.get('r1', 1000.0), inp.get('rl', 0.0), inp.get('a', 1e-3), inp.get('b', 2e-4), inp.get('c', 1e-7), inp.get('off', 0.0), RAW)
+        else:
+            s = sc.PolynomialScaling([inp.get('c%d' % i, 1.0) for i in range(inner['n'])], RAW)
+        arr = np.array([0.25, 0.5, 0.75], dtype='float64')
+        keep = arr.copy()
+        s.scale(arr)
+    except Exception as e:
+        return None
+    if not np.array_equal(arr, keep):
+        return dict(sig=signature(dict(task=art['task'], what='scale-modifies-raw-data', scale=art.get('scale'))), before=list(keep), after=[float(x) for x in arr])
     return None
